@@ -267,6 +267,29 @@ impl Elem for Pl {
     }
 }
 
+/// zero-sized panic payload
+pub struct InjectZ;
+
+/// Plain data (no drop glue) whose `Default` is not a constant: every call is counted, numbered and can be
+/// made to panic, like `Tr`'s.
+#[derive(Clone, Copy, Debug, PartialEq)]
+pub struct Dc(pub u64);
+impl Default for Dc {
+    fn default() -> Dc {
+        let k = CLONE_CALLS.with(|c| {
+            let mut c = c.borrow_mut();
+            let v = *c;
+            *c += 1;
+            v
+        });
+        if BAD_CLONE.with(|b| *b.borrow() == Some(k)) {
+            // zero-sized payload, no panic hook: raising it does not allocate
+            std::panic::resume_unwind(Box::new(InjectZ));
+        }
+        Dc(fresh_id())
+    }
+}
+
 /// Zero-sized drop-tracked element (counts drops only).
 pub struct TrZ;
 impl Drop for TrZ {
